@@ -209,3 +209,108 @@ def included(pattern, safe_regex, flags=re.UNICODE | re.VERBOSE,
         lang = z3.Intersect(lang, extra)
     st, w = decide_empty(z3.Intersect(lang, z3.Complement(safe_regex)))
     return st, (None if st == 'proved' else 'witness: %r' % w)
+
+
+# ------------------------------------------------- structural checks ----
+
+def first_char_classes(pattern, flags=re.UNICODE | re.VERBOSE):
+    """For every starred/plus group whose body is an alternation, the list
+    of alternatives (as sre item lists)."""
+    tree = sre_parse.parse(pattern, flags)
+    out = []
+
+    def walk(items):
+        for op, av in items:
+            n = str(op)
+            if n in ('MAX_REPEAT', 'MIN_REPEAT'):
+                lo, hi, sub = av
+                alts = _alternatives(list(sub))
+                if hi == sre_c.MAXREPEAT and len(alts) > 1:
+                    out.append(alts)
+                walk(list(sub))
+            elif n == 'SUBPATTERN':
+                walk(list(av[-1]))
+            elif n == 'BRANCH':
+                for a in av[1]:
+                    walk(list(a))
+    walk(list(tree))
+    return out
+
+
+def _alternatives(items):
+    if len(items) == 1:
+        op, av = items[0]
+        if str(op) == 'SUBPATTERN':
+            return _alternatives(list(av[-1]))
+        if str(op) == 'BRANCH':
+            return [list(a) for a in av[1]]
+        if str(op) == 'IN':
+            return [items]
+    return [items]
+
+
+def ambiguous_repetitions(pattern):
+    """Alternatives of a repeated group that can both start a match at the
+    same position with the same first character (=> exponential
+    backtracking on a failing match). Returns list of descriptions."""
+    bad = []
+    for alts in first_char_classes(pattern):
+        firsts = []
+        for a in alts:
+            r = _seq(a)
+            # first character language: { c | c.w in L(r) }
+            firsts.append(r)
+        for i in range(len(firsts)):
+            for j in range(i + 1, len(firsts)):
+                x = z3.String('c')
+                s = z3.Solver()
+                s.set('timeout', 10000)
+                s.add(z3.Length(x) == 1)
+                s.add(z3.InRe(x, z3.Intersect(
+                    _prefix1(firsts[i]), _prefix1(firsts[j]))))
+                if s.check() != z3.unsat:
+                    bad.append('alternatives %d and %d of a repeated group '
+                               'share a first character' % (i + 1, j + 1))
+    return bad
+
+
+def _prefix1(r):
+    """{ first character of w | w in L(r), w non-empty } as a regex over
+    single characters: c such that c.Sigma* intersects L(r)."""
+    # z3 has no quotient operator; characterise through membership:
+    # x in prefix1(r) iff len(x)==1 and exists w. x.w in L(r).  We return the
+    # regex (r intersected with AnyChar.Sigma*) projected by a solver query
+    # in ambiguous_repetitions; here, over-approximate with the language of
+    # single characters that can start r by intersecting r's unrolling.
+    return _first(r)
+
+
+def _first(r):
+    # L(r) restricted to its first character, computed structurally
+    k = r.decl().kind()
+    ch = r.children()
+    if k == z3.Z3_OP_SEQ_TO_RE:
+        s = ch[0]
+        if z3.is_string_value(s):
+            v = s.as_string()
+            return z3.Re(z3.StringVal(v[0])) if v else None
+        return ANYCHAR
+    if k == z3.Z3_OP_RE_RANGE or k == z3.Z3_OP_RE_FULL_CHAR_SET:
+        return r
+    if k == z3.Z3_OP_RE_UNION:
+        parts = [p for p in (_first(c) for c in ch) if p is not None]
+        return z3.Union(*parts) if len(parts) > 1 else (
+            parts[0] if parts else None)
+    if k == z3.Z3_OP_RE_CONCAT:
+        return _first(ch[0])
+    if k in (z3.Z3_OP_RE_STAR, z3.Z3_OP_RE_PLUS, z3.Z3_OP_RE_OPTION,
+             z3.Z3_OP_RE_LOOP):
+        return _first(ch[0])
+    if k == z3.Z3_OP_RE_INTERSECT:
+        if any(c.decl().kind() == z3.Z3_OP_RE_FULL_CHAR_SET for c in ch):
+            return r        # a character class: its own first-char language
+        parts = [p for p in (_first(c) for c in ch) if p is not None]
+        return z3.Intersect(*parts) if len(parts) > 1 else parts[0]
+    if k == z3.Z3_OP_RE_COMPLEMENT:
+        return ANYCHAR
+    return ANYCHAR
